@@ -292,3 +292,21 @@ impl ExactSizeIterator for BinaryQuantizedIterator<'_> {
         lower
     }
 }
+
+/// Direct access to each conversion path (verification hook).
+#[cfg(arroy_verif)]
+#[allow(missing_docs)]
+pub mod verif_hooks {
+    use super::*;
+
+    pub fn from_slice_plain(slice: &[f32]) -> Vec<u8> {
+        from_slice_non_optimized(slice)
+    }
+    pub fn to_vec_plain(vec: &UnalignedVector<BinaryQuantized>) -> Vec<f32> {
+        to_vec_non_optimized(vec)
+    }
+    #[cfg(target_arch = "x86_64")]
+    pub fn to_vec_simd(vec: &UnalignedVector<BinaryQuantized>) -> Option<Vec<f32>> {
+        is_x86_feature_detected!("sse").then(|| unsafe { to_vec_sse(vec) })
+    }
+}
